@@ -37,7 +37,7 @@ G_API_HOST = "www.googleapis.com"
 G_OAUTH_HOST = "accounts.google.com"
 
 FAULT_KINDS = {
-    "http_4xx_json", "http_5xx_json", "http_5xx_text", "malformed_json", "missing_content_type",
+    "http_4xx_json", "http_5xx_json", "http_5xx_text", "http_3xx_json", "malformed_json", "missing_content_type",
     "reset_before_body", "reset_inside_body", "corrupt", "wrong_checksum", "omit_checksum", "delay", "async",
 }
 
@@ -1825,7 +1825,7 @@ class Handler(BaseHTTPRequestHandler):
         if kind == "delay" and fault.get("phase", "before") != "after":
             time.sleep(float(fault.get("seconds", 1)))
 
-        if kind in ("http_4xx_json", "http_5xx_json", "http_5xx_text", "malformed_json", "missing_content_type"):
+        if kind in ("http_4xx_json", "http_5xx_json", "http_5xx_text", "http_3xx_json", "malformed_json", "missing_content_type"):
             ctx.drain_capturing()
             if kind == "http_4xx_json":
                 status = int(fault.get("status", DEFAULT_4XX.get(ctx.provider, 400)))
@@ -1836,6 +1836,10 @@ class Handler(BaseHTTPRequestHandler):
             elif kind == "http_5xx_text":
                 status = int(fault.get("status", 503))
                 reply = Reply(status, fault.get("text", "Service Unavailable.\nInjected by the emulator.\n"), ctype="text/plain; charset=utf-8")
+            elif kind == "http_3xx_json":
+                # a final status that is neither success nor a client / server error and that no HTTP library follows (no Location): e.g. what
+                # a proxy in between may answer.  The body is a harmless JSON object
+                reply = Reply(int(fault.get("status", 300)), b"{}", ctype="application/json")
             elif kind == "malformed_json":
                 reply = Reply(200, b'{"truncated": ', ctype="application/json")
             else:
